@@ -29,7 +29,7 @@ class Check(PropertyCheck):
     QUICK_N = 200
 
     def make_impl(self, scenario):
-        if scenario.meta.get("kind") == "env":
+        if scenario.meta.get("kind") in ("env", "multi"):
             from impl_ext import ImplEnv
             return ImplEnv(filter_style=scenario.meta.get("filter_style", "callable"))
         from impl_ext import ImplGraph
@@ -39,6 +39,15 @@ class Check(PropertyCheck):
         for i in range(n):
             if i % 10 == 9:
                 yield self.env_scenario(rng)
+                continue
+            if i % 20 == 4:
+                # the multi-instance environment: every reset() starts an episode on a newly generated instance, as a freshly built
+                # single environment on that instance would (compared with the model; the generator may carry an iteration limit,
+                # which is none of reset()'s business)
+                import C18
+                sc = C18.Check().multi_scenario(rng)
+                sc.meta.update({"kind": "multi", "before": 2, "after": 2, "observers": 3})
+                yield sc
                 continue
             yield self.scenario(rng, tier)
 
@@ -148,6 +157,11 @@ class Check(PropertyCheck):
     def oracle(self, impl, scenario, index, line, out, ctx):
         """Shadow world: fresh real objects that only ever see the events after the last reset."""
         res = []
+        if scenario.meta.get("kind") == "multi":
+            if line == "mreset" and out == "raise" and not scenario.meta.get("may_refuse") and not scenario.meta.get("recirc") \
+                    and not scenario.meta.get("multi_machine"):
+                res.append(("reset-raised", "MultiJobShopGraphEnv.reset() raised: no new episode although the generator can generate"))
+            return res
         if scenario.meta.get("kind") == "env":
             from impl_ext import ImplEnv
             if line == "new":
